@@ -11,6 +11,7 @@ import (
 	"verif/cfg"
 	"verif/core"
 	"verif/oracle"
+	"verif/sg"
 	"verif/wl"
 )
 
@@ -355,11 +356,15 @@ func runC08(c *core.Ctx) {
 	n2 := c.PerShard(c.N(1600000, 40000000))
 	for i := 0; i < n2; i++ {
 		var d []byte
-		switch i % 5 {
+		switch i % 6 {
 		case 0, 1:
 			d = wl.SoupFrom(r, c08Lines, 1+r.Intn(10))
 		case 2:
 			d = wl.Soup(r, 1+r.Intn(24))
+		case 3:
+			// a well-formed nested document from the by-construction generator (tab-free)
+			d = []byte(sg.DocumentNoTabs(r, 3, 5, 3, nil).Markdown)
+			c.Count("structured_documents", 1)
 		default:
 			d = wl.Mix(r, corpus)
 		}
